@@ -104,14 +104,20 @@ func (lv hwLevel) size() int {
 
 var hwCounts = []int{0, 0, 1, 1, 2, 3}
 
-func hwGenLevel(r *hx.Rng) hwLevel {
-	return hwLevel{hwAdds(r, r.Pick(hwCounts)), hwRems(r, r.Pick(hwCounts)), hwAdds(r, r.Pick(hwCounts)), hwRems(r, r.Pick(hwCounts))}
+var hwSparse = []int{0, 0, 0, 0, 1, 1, 2}
+
+func hwGenLevel(r *hx.Rng, counts []int) hwLevel {
+	return hwLevel{hwAdds(r, r.Pick(counts)), hwRems(r, r.Pick(counts)), hwAdds(r, r.Pick(counts)), hwRems(r, r.Pick(counts))}
 }
 
 var hwNil = hwList{isNil: true}
 
 func runHw(c *hx.Ctx, r *hx.Rng) {
-	route, vhost, global := hwGenLevel(r), hwGenLevel(r), hwGenLevel(r)
+	counts := hwCounts
+	if r.Chance(50) {
+		counts = hwSparse
+	}
+	route, vhost, global := hwGenLevel(r, counts), hwGenLevel(r, counts), hwGenLevel(r, counts)
 	shape := "free"
 	switch k := r.Intn(100); {
 	case k < 12: // a virtual host that configures ONLY response removals (every other field nil)
